@@ -977,3 +977,53 @@ pub mod verif_acl {
         }
     }
 }
+
+/// Verification hooks (built only with `--cfg erbium_verif`): the private
+/// reply-assembly functions, callable without sockets.
+#[cfg(erbium_verif)]
+pub mod verif_fwd {
+    use super::*;
+
+    pub fn mk_msg(in_query: dnspkt::DNSPkt, in_size: usize, tcp: bool) -> DnsMessage {
+        DnsMessage {
+            in_query,
+            in_size,
+            local_ip: std::net::IpAddr::V4(std::net::Ipv4Addr::new(192, 0, 2, 53)),
+            remote_addr: std::net::SocketAddr::new(
+                std::net::IpAddr::V4(std::net::Ipv4Addr::new(192, 0, 2, 1)),
+                5353,
+            )
+            .into(),
+            protocol: if tcp { Protocol::Tcp } else { Protocol::Udp },
+        }
+    }
+    pub async fn create_in_reply(msg: &DnsMessage, outr: &dnspkt::DNSPkt) -> dnspkt::DNSPkt {
+        DnsListenerHandler::create_in_reply(msg, outr).await
+    }
+    /// `kind` selects the error the reply is built for.
+    pub async fn create_in_error(msg: &DnsMessage, kind: u8, text: &str) -> dnspkt::DNSPkt {
+        let err = match kind {
+            0 => Error::Denied(text.into()),
+            1 => Error::Blocked,
+            2 => Error::NotAuthoritative,
+            3 => Error::NoRouteConfigured,
+            4 => Error::OutReply(outquery::Error::Timeout),
+            5 => Error::OutReply(outquery::Error::Parse(text.into())),
+            _ => Error::OutReply(outquery::Error::Internal(text.into())),
+        };
+        DnsListenerHandler::create_in_error(msg, err).await
+    }
+    pub fn create_outquery(id: u16, in_query: &dnspkt::DNSPkt) -> dnspkt::DNSPkt {
+        outquery::verif_create_outquery(id, in_query)
+    }
+    /// What `run_udp` / `run_tcp` put on the wire for `in_reply` (without the
+    /// TCP length prefix).
+    pub fn wire_bytes(msg: &DnsMessage, in_reply: &dnspkt::DNSPkt) -> Vec<u8> {
+        match msg.protocol {
+            Protocol::Udp => in_reply.serialise(),
+            Protocol::Tcp => {
+                DnsListenerHandler::prepare_to_send(in_reply, msg.in_query.bufsize as usize)
+            }
+        }
+    }
+}
